@@ -3,6 +3,7 @@
 Protocol: one JSON object per line on stdin, one JSON object per line on stdout.
   {"op": "convert", "wb": ..., "args": ..., "pretty": bool, "regen": k}
   {"op": "threads", "jobs": [{"wb":..., "args":..., "pretty":...}, ...], "schedule": [[gap, next], ...]}   # harness-owned schedule
+  {"op": "focus",   "jobs": [...], "picks": [ints]}   # race-directed schedules in pristine children (ask the template worker)
   {"op": "stress",  "jobs": [...], "threads": n, "rounds": r}                                             # free-running threads
 """
 
@@ -88,7 +89,16 @@ def residue():
 
 
 class Sched:
-    """K threads pass a baton; a profile hook on pyxform 'call' events decides when to switch"""
+    """K threads pass a baton; a profile hook on pyxform 'call' events decides when to switch.
+
+    Only the baton holder runs.  If the holder blocks on a real lock that a waiting thread owns (no profile event from anyone for
+    STALL seconds), a waiter takes the baton back and the blocked thread is left out of hand-offs until it shows life again; after
+    MAX_STALLS of these the rest of the run is left to the interpreter's own scheduling (still a legal schedule)."""
+
+    STALL = 0.15
+    MAX_STALLS = 6
+    focus = None        # (file, first line) of one function: every entry of it hands the baton on (race-directed schedule)
+    max_switches = 400
 
     def __init__(self, n, schedule):
         self.n = n
@@ -98,12 +108,75 @@ class Sched:
         self.done = [False] * n
         self.switches = 0
         self.lock_fail = None
+        self.holder = 0
+        self.events = 0
+        self.stuck = set()
+        self.stalls = 0
+        self.free = False
+        self.mu = threading.Lock()
 
     def hook(self, tid):
         def prof(frame, event, arg):
+            if self.free:
+                return
+            self.events += 1
+            if self.holder != tid:
+                # presumed blocked while the baton moved on: wait for our turn
+                self.stuck.discard(tid)
+                self.wait(tid)
+                if self.free:
+                    return
             if event == "call" and frame.f_code.co_filename.startswith(PYX):
-                self.tick(tid)
+                if self.focus is None:
+                    self.tick(tid)
+                elif frame.f_code.co_firstlineno == self.focus[1] and frame.f_code.co_filename[len(PYX):] == self.focus[0]:
+                    if self.switches < self.max_switches:
+                        self.handoff(tid, (tid + 1) % self.n)
         return prof
+
+    def wait(self, tid):
+        waited = 0.0
+        while not self.free and self.holder != tid:
+            last = self.events
+            got = self.sems[tid].acquire(timeout=self.STALL)
+            if self.holder == tid or self.free:
+                return
+            if got:
+                continue        # a stale release
+            waited += self.STALL
+            if waited > 120:
+                self.lock_fail = f"thread {tid} never got the baton back"
+                self.set_free()
+                return
+            with self.mu:
+                if self.events == last and self.holder != tid and not self.done[self.holder]:
+                    # nobody moved: the holder is blocked on a lock; take the baton back
+                    self.stuck.add(self.holder)
+                    self.holder = tid
+                    self.events += 1
+                    self.stalls += 1
+                    if self.stalls >= self.MAX_STALLS:
+                        self.set_free()
+                    return
+
+    def set_free(self):
+        self.free = True
+        for s in self.sems:
+            s.release()
+
+    def handoff(self, tid, start):
+        nxt = None
+        for d in range(self.n):
+            j = (start + d) % self.n
+            if j != tid and not self.done[j] and j not in self.stuck:
+                nxt = j
+                break
+        if nxt is None:
+            return
+        self.switches += 1
+        self.holder = nxt
+        self.sems[nxt].release()
+        self.wait(tid)
 
     def tick(self, tid):
         if not self.sched:
@@ -115,28 +188,39 @@ class Sched:
         self.sched.pop(0)
         self.count = 0
         nxt %= self.n
-        if nxt == tid or self.done[nxt]:
+        if nxt == tid or self.done[nxt] or nxt in self.stuck:
             return
         self.switches += 1
+        self.holder = nxt
         self.sems[nxt].release()
-        if not self.sems[tid].acquire(timeout=120):
-            self.lock_fail = f"thread {tid} never got the baton back"
+        self.wait(tid)
 
     def finish(self, tid):
         self.done[tid] = True
+        self.stuck.discard(tid)
+        if self.free or self.holder != tid:
+            return
         for j in range(self.n):
-            if not self.done[j]:
+            if not self.done[j] and j not in self.stuck:
+                self.holder = j
+                self.sems[j].release()
+                return
+        for j in range(self.n):
+            if not self.done[j]:       # only blocked threads are left: whoever wakes up is the holder
+                self.holder = j
                 self.sems[j].release()
                 return
 
 
-def run_threads(jobs, schedule):
+def run_threads(jobs, schedule, focus=None):
     n = len(jobs)
     sch = Sched(n, schedule)
+    if focus is not None:
+        sch.focus = tuple(focus)
     results = [None] * n
 
     def body(i):
-        sch.sems[i].acquire()
+        sch.wait(i)
         sys.setprofile(sch.hook(i))
         try:
             results[i] = one(jobs[i])
@@ -147,7 +231,6 @@ def run_threads(jobs, schedule):
     ts = [threading.Thread(target=body, args=(i,), daemon=True) for i in range(n)]
     for t in ts:
         t.start()
-    sch.sems[0].release()
     for t in ts:
         t.join(timeout=300)
     hung = any(t.is_alive() for t in ts)
@@ -174,15 +257,56 @@ def run_stress(jobs, nthreads, rounds):
     return [[(results[t][r], (t + r) % len(jobs)) for r in range(rounds)] for t in range(nthreads)]
 
 
-def fresh(job):
+def call_keys(job, picks):
+    """convert alone, recording every pyxform call event; -> the function (file, first line) at each picked event index.
+    Picking by event makes often-called functions likelier, which is where a shared object is touched most"""
+    keys = []
+
+    def prof(frame, event, arg):
+        if event == "call" and frame.f_code.co_filename.startswith(PYX):
+            keys.append((frame.f_code.co_filename[len(PYX):], frame.f_code.co_firstlineno))
+
+    sys.setprofile(prof)
+    try:
+        one(job)
+    finally:
+        sys.setprofile(None)
+    if not keys:
+        return {"keys": [], "events": 0}
+    return {"keys": [list(keys[p % len(keys)]) for p in picks], "events": len(keys), "functions": len(set(keys))}
+
+
+def focus_run(msg):
+    """race-directed schedules, each in a pristine child (cold caches): the function at a sampled call event of job 0 becomes the
+    switch point -- whenever a thread enters it, the next thread runs until it enters it too"""
+    picked = fresh(msg, lambda m: call_keys(m["jobs"][0], m["picks"]))
+    runs = []
+    seen = set()
+    for key in picked.get("keys", []):
+        if tuple(key) in seen:
+            continue
+        seen.add(tuple(key))
+
+        def go(m, key=key):
+            results, switches, hung = run_threads(m["jobs"], [], focus=key)
+            return {"results": results, "switches": switches, "hung": hung}
+
+        r = fresh(msg, go)
+        r["key"] = key
+        runs.append(r)
+    return {"runs": runs, "events": picked.get("events", 0), "functions": picked.get("functions", 0)}
+
+
+def fresh(job, fn=None):
     """answer of a pristine child: this (template) process has imported pyxform and never converted anything, so a fork of it is
     in the state of a fresh process after import"""
+    fn = fn or one
     r, w = os.pipe()
     pid = os.fork()
     if pid == 0:
         try:
             os.close(r)
-            data = json.dumps(one(job)).encode()
+            data = json.dumps(fn(job)).encode()
             with os.fdopen(w, "wb") as f:
                 f.write(data)
         finally:
@@ -216,6 +340,8 @@ def main():
         try:
             if msg["op"] == "fresh":
                 res = fresh(msg)
+            elif msg["op"] == "focus":
+                res = focus_run(msg)
             elif msg["op"] == "convert":
                 res = one(msg)
             elif msg["op"] == "threads":
